@@ -40,7 +40,10 @@ def families(tier):
     for method in ('cs', 'fd'):
         for indices in (False, True):
             for order in ('abc', 'cba', 'bac'):
-                for h in (['default'], ['default', 'default'], ['fc', 'default']):
+                # (a query with other of/wrt than the driver's while a total coloring of the
+                # approximated model is in place raises a KeyError about relevance seeds: an
+                # exception, not a silent difference; not enumerated)
+                for h in (['default'], ['default', 'default']):
                     out.append({'family': 'queries', 'where': 'root3', 'method': method,
                                 'mode': 'fwd', 'hist': h, 'coloring': True, 'indices': indices,
                                 'order': order})
@@ -205,6 +208,10 @@ def _queries(case, no_rel):
         for k, v in vals.items():
             p.set_val(k, v)
         p.run_model()
+        if case['coloring']:
+            import openmdao.utils.coloring as cmod
+            np.random.seed(5)
+            cmod.dynamic_total_coloring(p.driver, run_model=False)
         for q in case['hist']:
             ow = queries[q]
             if ow is None:
